@@ -278,7 +278,7 @@ def decl_terms(d):
 def reachable_decls(prog):
     """names of the local interface declarations the target needs (concretisation: only those are written)"""
     decls = prog["decls"]
-    seen, todo = [], [prog["target"]]
+    seen, todo = [], list(prog.get("targets") or [prog["target"]])
     while todo:
         n = todo.pop()
         if n in seen or n not in decls:
@@ -314,8 +314,11 @@ def render_source(prog, pkgname, extra_terms=(), all_decls=False):
     r.used.clear()
     decls = prog["decls"]
     names = sorted(prog["decls"]) if all_decls else reachable_decls(prog)
+    targets = prog.get("targets") or [prog["target"]]
+    # declaration order = order in which mockery mocks them: helper interfaces first, then Prog.targets in order
+    order = sorted((n for n in names if n not in targets), key=str) + [n for n in targets if n in prog["decls"]]
     body = []
-    for n in sorted(names, key=lambda x: (x == prog["target"], x)):
+    for n in order:
         d = decls[n]
         gn = conc_ident(n)
         if n == prog["target"] and prog["form"] == "namedinst":
@@ -358,12 +361,12 @@ def render_source(prog, pkgname, extra_terms=(), all_decls=False):
 class Space:
     def __init__(self):
         self.progs = {}    # pid -> {"prog":..., "methods":[...], "wellformed": bool}
-        self.preds = {}    # (pid, tmpl, inpkg) -> pred
+        self.preds = {}    # (pid, tmpl, inpkg, ensure-line rendered) -> pred
         self.cfgs = []     # [{"cfg":..., "expect":...}]
         self.tlc = {}
 
-    def pred(self, pid, tmpl, inpkg):
-        return self.preds[(pid, tmpl, bool(inpkg))]
+    def pred(self, pid, tmpl, inpkg, ens=False):
+        return self.preds[(pid, tmpl, bool(inpkg), bool(ens) and tmpl == "matryer")]
 
 
 def method_id(name):
@@ -411,13 +414,13 @@ def load_space(ctx, tier, programs_cfg=None, need_cfgs=True):
     for x in r.prints("PRED"):
         if isinstance(x["imports"], list):
             x["imports"] = {}
-        sp.preds[(x["pid"], x["tmpl"], bool(x["inpkg"]))] = x
+        sp.preds[(x["pid"], x["tmpl"], bool(x["inpkg"]), bool(x["ens"]))] = x
     if tier == "thorough":
         zero = r.coverage_zero()
         if zero:
             raise MachineryError("vacuous: actions of Codegen.tla never taken: %s" % zero[:5])
     sp.tlc["codegen"] = {"generated": r.generated, "distinct": r.distinct, "wall": round(r.wall, 1), "cfg": cfg}
-    if not sp.progs or len(sp.preds) != 4 * len(sp.progs):
+    if not sp.progs or len(sp.preds) != 6 * len(sp.progs):
         raise MachineryError("export incomplete: %d programs, %d predictions" % (len(sp.progs), len(sp.preds)))
     # abstraction tables that could be wrong independently of mockery
     tab = r.prints("TABLES")
@@ -435,6 +438,8 @@ def load_space(ctx, tier, programs_cfg=None, need_cfgs=True):
         for m in x["methods"]:
             if m["n"] not in known:
                 raise MachineryError("method name %s missing from MethodOrder" % m["n"])
+    if tier == "thorough" and not programs_cfg:
+        add_simulated(ctx, sp, 400)
     if need_cfgs:
         rc = ctx.tlc_ok("CodegenCfg", "CodegenCfg.cfg", workers=1, timeout=300)
         seen = set()
@@ -447,6 +452,66 @@ def load_space(ctx, tier, programs_cfg=None, need_cfgs=True):
         if len(sp.cfgs) < 1000:
             raise MachineryError("configuration space export too small: %d" % len(sp.cfgs))
     return sp
+
+
+# ------------------------------------------------------------------------------------------ simulated programs
+def tla_lit(x):
+    """Python value (as parsed from TLC's JSON) -> TLA+ literal"""
+    if isinstance(x, bool):
+        return "TRUE" if x else "FALSE"
+    if isinstance(x, int):
+        return str(x)
+    if isinstance(x, str):
+        if not x.isascii() or '"' in x or "\\" in x:
+            raise MachineryError("cannot spell %r as a TLA+ string" % x)
+        return '"' + x + '"'
+    if isinstance(x, list):
+        return "<<" + ", ".join(tla_lit(v) for v in x) + ">>"
+    if isinstance(x, dict):
+        return "[" + ", ".join("%s |-> %s" % (k, tla_lit(v)) for k, v in sorted(x.items())) + "]"
+    raise MachineryError("cannot spell %r in TLA+" % (x,))
+
+
+def add_simulated(ctx, sp, n, nmethods=4, maxdepth=3):
+    """Thorough tier: TLC -simulate (spec/CodegenSim.tla, seeded) draws n interfaces beyond the exhaustive bounds; they
+    are written into a generated MC module and run through Codegen.tla, so expectation and prediction still come from
+    the specification.  Adds them to the space as family "sim"."""
+    cfg = "SPECIFICATION Spec\nCONSTANTS\n  NMethods = %d\n  MaxDepth = %d\nCONSTRAINT Emit\nCHECK_DEADLOCK FALSE\n" % (nmethods, maxdepth)
+    r = ctx.tlc("CodegenSim", "CodegenSim_gen.cfg", workers=1, simulate="num=%d" % (5 * n), depth=120, deadlock=False,
+                files={"cfg/CodegenSim_gen.cfg": cfg}, timeout=900, count=False)
+    seen, drawn = set(), []
+    for x in r.prints("SIM"):
+        k = json.dumps(x, sort_keys=True)
+        if k not in seen and any(m["ps"] or m["rs"] for m in x["ms"]):
+            seen.add(k)
+            drawn.append(x)
+    drawn = drawn[:n]
+    if len(drawn) < n // 3:
+        raise MachineryError("simulation drew only %d programs:\n%s" % (len(drawn), r.tail(15)))
+    items = []
+    for i, x in enumerate(drawn):
+        tps = '<<TPar("T", AnyT)>>' if x["gen"] else "<< >>"
+        items.append('  [P("sim/%d/%04d", "sim", "seed%d", "cs", One("I", Decl(%s, << >>, %s)), "I") EXCEPT !.pos = "d%d"]'
+                     % (ctx.seed, i, ctx.seed, tps, tla_lit(x["ms"]), maxdepth))
+    mod = ("---- MODULE CodegenSimMC ----\n(* generated by lib/codegen_worlds.py from a TLC simulation of CodegenSim.tla (seed %d) *)\n"
+           "EXTENDS CodegenMC\nSimPrograms == {\n%s\n}\n====\n" % (ctx.seed, ",\n".join(items)))
+    mccfg = "SPECIFICATION Spec\nCONSTANTS\n  Programs <- SimPrograms\nINVARIANTS FooterInvariants DeviationsNamed\nCONSTRAINT Emit\nCHECK_DEADLOCK FALSE\n"
+    r2 = ctx.tlc("CodegenSimMC", "Codegen_simmc.cfg", workers=1, timeout=1800,
+                 files={"CodegenSimMC.tla": mod, "cfg/Codegen_simmc.cfg": mccfg})
+    if not r2.ok:
+        raise MachineryError("TLC failed on the simulated programs (%s):\n%s" % (r2.violated, r2.tail(25)))
+    n0 = len(sp.progs)
+    for x in r2.prints("PROG"):
+        if not x["wellformed"]:
+            raise MachineryError("simulation produced an ill-formed program: " + x["prog"]["pid"])
+        sp.progs[x["prog"]["pid"]] = x
+    for x in r2.prints("PRED"):
+        if isinstance(x["imports"], list):
+            x["imports"] = {}
+        sp.preds[(x["pid"], x["tmpl"], bool(x["inpkg"]), bool(x["ens"]))] = x
+    sp.tlc["simulated"] = {"drawn": len(drawn), "sim_states": r.generated, "model_states": r2.distinct,
+                           "nmethods": nmethods, "maxdepth": maxdepth, "seed": ctx.seed}
+    return len(sp.progs) - n0
 
 
 # ------------------------------------------------------------------------------------------ selection (sampling)
@@ -478,13 +543,14 @@ def stratum(x):
     return (fam, p["pid"])
 
 
-def select_programs(ctx, sp, tier, scale=1.0):
+def select_programs(ctx, sp, tier, scale=1.0, exclude_fams=()):
     """Stratified sample of the exported programs (harness job: which enumerated states are executed).
     Every stratum is hit at least once; the seed picks inside a stratum."""
     rng = ctx.rng
     by = {}
     for pid in sorted(sp.progs):
-        by.setdefault(stratum(sp.progs[pid]), []).append(pid)
+        if sp.progs[pid]["prog"]["fam"] not in exclude_fams:
+            by.setdefault(stratum(sp.progs[pid]), []).append(pid)
     out = []
     for st in sorted(by):
         pids = by[st]
@@ -653,7 +719,7 @@ def build_worlds(ctx, sp, pairs, all_decls=None):
         cs = Case()
         cs.cid = "k%04d" % n
         cs.pid, cs.prog, cs.cfg, cs.cexpect = pid, sp.progs[pid]["prog"], cfg, c["expect"]
-        cs.pred = sp.pred(pid, cfg["tmpl"], c["expect"]["inpkg"])
+        cs.pred = sp.pred(pid, cfg["tmpl"], c["expect"]["inpkg"], cfg["tmpl"] == "matryer" and not cfg["skipensure"])
         cs.world = d
         cs.dir = "c/" + cs.cid
         cs.pkgpath = MOD + "/" + cs.dir
@@ -678,6 +744,8 @@ def mockery_entry(cs, template=None, extra=None, names=None):
             "template-data": template_data(cs.cfg, cs.world) if template is None else {}}
     if extra:
         conf.update(extra)
+    if names is None and len(cs.prog.get("targets") or []) > 1:
+        names = cs.prog["targets"]          # several interfaces of the package into this one file
     return {"config": conf, "interfaces": {conc_ident(n): {} for n in names} if names else {cs.target: {}}}
 
 
